@@ -32,9 +32,9 @@ type Object struct {
 	Cells []Value  // OMem
 	Ents  []MapEnt // OMap
 	// OChan
-	Buf    []Value
-	Cap    int
-	Closed *term.Term
+	Buf     []Value
+	Cap     int
+	Closed  *term.Term
 	Snap    *Snap      // codec token: snapshot carried by this byte object
 	TimerAt *term.Term // timer channel: receiving moves the clock to at least this instant
 	// OIter
@@ -83,20 +83,20 @@ const (
 )
 
 type Frame struct {
-	Fn      *ssa.Function
-	Info    *fnInfo
-	Block   int
-	IP      int
-	Prev    int // predecessor block index, -1 at entry
-	Regs    []Value
-	Defers  []Deferred
-	Kind    FrameKind
-	Unwind  bool // running defers because of a panic
+	Fn        *ssa.Function
+	Info      *fnInfo
+	Block     int
+	IP        int
+	Prev      int // predecessor block index, -1 at entry
+	Regs      []Value
+	Defers    []Deferred
+	Kind      FrameKind
+	Unwind    bool // running defers because of a panic
 	Recovered bool // the panic was recovered; remaining defers run, then the function returns
-	Atomic  bool // this frame's extent is an atomic section (model functions)
-	Loops   int  // back-edges taken in this frame
-	hash    uint64
-	ep      *epoch
+	Atomic    bool // this frame's extent is an atomic section (model functions)
+	Loops     int  // back-edges taken in this frame
+	hash      uint64
+	ep        *epoch
 }
 
 func (f *Frame) clone(ep *epoch) *Frame {
@@ -137,7 +137,7 @@ type Thread struct {
 	MustFinish bool
 	Atomic     int // nesting depth of atomic sections
 	Pending    *VisOp
-	Bars       []spawnBar // spawn barriers: accesses of the ancestors that precede the go statements happen-before this thread
+	Bars       []spawnBar  // spawn barriers: accesses of the ancestors that precede the go statements happen-before this thread
 	Held       []Ptr       // mutexes / wait groups this thread holds or has waited for (race check)
 	Open       []accessRec // cells accessed since the last visible operation (race check)
 	Start      *StartCall
@@ -171,14 +171,14 @@ type TraceNode struct {
 }
 
 type Violation struct {
-	Label string
-	Kind  string // assert, panic, deadlock, race, unwind
-	Model map[string]string
-	Trace []string
-	Cond  *term.Term
-	Tags  map[string]string
-	Obs   map[string]string
-	Site  string
+	Label      string
+	Kind       string // assert, panic, deadlock, race, unwind
+	Model      map[string]string
+	Trace      []string
+	Cond       *term.Term
+	Tags       map[string]string
+	Obs        map[string]string
+	Site       string
 	Gates      []string
 	ModelTyped map[string]interface{}
 	ObsTyped   map[string]interface{}
@@ -193,20 +193,21 @@ type heapBase struct {
 }
 
 type State struct {
-	PC      *term.Term
-	base    *heapBase          // shared, never written
-	over    map[ObjID]*Object  // this state's objects shadowing / extending base
-	knownShared bool
-	Threads []*Thread
-	Known   map[*term.Term]bool
-	Trace   *TraceNode
-	Quiesce []Value // AtQuiescence callbacks (closures)
-	Tags    []TagEntry
-	Obs     []Observation
-	Clock   *term.Term
+	PC           *term.Term
+	base         *heapBase         // shared, never written
+	over         map[ObjID]*Object // this state's objects shadowing / extending base
+	knownShared  bool
+	Threads      []*Thread
+	Known        map[*term.Term]bool
+	Trace        *TraceNode
+	Quiesce      []Value // AtQuiescence callbacks (closures)
+	Tags         []TagEntry
+	Obs          []Observation
+	Clock        *term.Term
 	ExitedBlocks int
-	Dead    bool
-	ep      *epoch
+	Ghosts       []ghostRec // race check: final-block accesses of exited threads
+	Dead         bool
+	ep           *epoch
 }
 
 func newState() *State {
